@@ -635,6 +635,10 @@ def refine_droplet(
 
     # apply the mask
     data_mask = phase_field.data[mask]
+    if data_mask.size == 0:
+        # the droplet is so small that its image does not cover a single support point of
+        # the grid (e.g. on strongly anisotropic grids), so there is no data to fit
+        return droplet
 
     # determine the coordinate constraints and only vary the free data points
     data_flat = structured_to_unstructured(droplet.data)  # unstructured data
